@@ -561,7 +561,7 @@ impl Check for FireCheck {
             run.set("hash_seed", (f.next() >> 1) as i64 | 1);
         }
         if f.chance(2, 5) {
-            run.set("stride_max", *f.pick(&[1, 3, 17, 1000]));
+            run.set("stride_max", *f.pick(&[1, 3, 17, 200]));
             run.set("stride_seed", (f.next() >> 1) as i64);
         }
         if f.chance(1, 4) {
